@@ -13,6 +13,10 @@ FILLFUNCS = {
     'half': lambda i: i / 2,
     'sq': lambda i: i * i + 1,
     'hmod': lambda i: i // 2 % 100,      # depends on the index itself, not on the index modulo 2**k
+    # row-wise but NOT element-wise: they need the index grid in the full shape of the chunk
+    'cum': lambda i: np.cumsum(i.reshape(i.shape[0], int(np.prod(i.shape[1:]))), axis=1).reshape(i.shape),
+    'rowsum': lambda i: i * 0 + i.reshape(i.shape[0], int(np.prod(i.shape[1:]))).sum(axis=1).reshape(
+        (i.shape[0],) + (1,) * (i.ndim - 1)),
 }
 
 
